@@ -55,26 +55,37 @@ _CRATE_RE = re.compile(r"(?<![\w:])penne::")
 
 
 def norm_path(p):
-    """Strip generic argument segments: Tokens::<'a>::consume -> Tokens::consume"""
+    """Strip generic argument segments (Tokens::<'a>::consume -> Tokens::consume) and
+    shorten inherent-impl segments (m::<impl a::b::T>::f -> m::{T}::f)."""
     if "penne::" in p:
         p = _CRATE_RE.sub("", p)
     out = []
-    depth = 0
     i = 0
-    while i < len(p):
-        c = p[i]
-        if depth == 0 and p.startswith("::<", i):
-            depth = 1
-            i += 3
+    n = len(p)
+    while i < n:
+        if p.startswith("::<", i):
+            # find the matching '>'
+            depth = 0
+            j = i + 2
+            while j < n:
+                if p[j] == "<":
+                    depth += 1
+                elif p[j] == ">" and not (j > 0 and p[j - 1] == "-"):
+                    depth -= 1
+                    if depth == 0:
+                        break
+                j += 1
+            seg = p[i + 3:j]
+            if seg.startswith("impl ") and not p.startswith(("core::", "std::", "alloc::", "<")):
+                ty = seg[5:]
+                # last path component of the self type, without generics
+                k = ty.find("<")
+                base = ty[:k] if k >= 0 else ty
+                base = base.strip().lstrip("&").replace("mut ", "").strip()
+                out.append("::{" + base.split("::")[-1] + "}")
+            i = j + 1
             continue
-        if depth > 0:
-            if c == "<":
-                depth += 1
-            elif c == ">":
-                depth -= 1
-            i += 1
-            continue
-        out.append(c)
+        out.append(p[i])
         i += 1
     return "".join(out)
 
